@@ -9,6 +9,6 @@ D="$1"; [ -n "$D" ] || { echo "usage: $0 DIR" >&2; exit 2; }
 mkdir -p "$D"
 D=$(cd "$D" && pwd)
 rsync -a --delete --exclude '.git' /repo/ "$D/repo/"
-rsync -a --delete --exclude '.git' --exclude 'build' --exclude 'replays' --exclude '*.vo' --exclude '*.vos' --exclude '*.vok' --exclude '*.glob' --exclude '.*.aux' /verif/ "$D/verif/"
+rsync -a --delete --exclude '.git' --exclude 'build' --exclude 'replays' /verif/ "$D/verif/"
 sed -i "s#=> /repo#=> $D/repo#" "$D/verif/harness/go.mod"
 echo "sandbox ready: cd $D/verif && VERIF_REPO=$D/repo ./check <ID>"
